@@ -30,7 +30,7 @@ type Options struct {
 var Types = []string{"boolean", "number", "integer", "string", "array", "object"}
 
 // Patterns is a list of patterns on which RE2 and ECMA-262 agree.
-var Patterns = []string{"^a", "b$", "^[a-c]+$", "[0-9]", "^..$", "^(ab)*$", "a|😀"}
+var Patterns = []string{"^a", "b$", "^[a-c]+$", "[0-9]", "^..$", "^(ab)*$", "a|😀", `^\u0041\u0042$`, `[\u00C9\u00D8x]`, `^\u00E9+$`}
 
 // the last four have no validator registered by default: they constrain nothing, and nothing else may change because of them
 var StringFormats = []string{"date", "date-time", "byte", "ipv4", "ipv6", "email", "password", "binary", "uuid", "hostname"}
@@ -345,6 +345,8 @@ func Walk(s map[string]any, f func(n map[string]any)) {
 var patSamples = map[string][]string{
 	"^a": {"a", "ab", "abc"}, "b$": {"b", "ab"}, "^[a-c]+$": {"a", "abc", "ab"}, "[0-9]": {"12", "007", "a1"},
 	"^..$": {"ab", "12", "é😀"}, "^(ab)*$": {"", "ab", "abab"}, "a|😀": {"a", "😀", "a😀b"},
+	// ECMA-262 \uXXXX escapes (adjacent, inside a class, single)
+	`^\u0041\u0042$`: {"AB", "A", "ABC", "ab"}, `[\u00C9\u00D8x]`: {"É", "Ø", "x", "aØb", "E"}, `^\u00E9+$`: {"é", "éé", "e"},
 }
 
 var FormatSamples = map[string][]string{
